@@ -252,6 +252,7 @@ where
                     // The layout parser shifts layout tokens using this context.
                     // Keep the span of the last content token.
                     let current_span = context.span();
+                    let current_position = context.position();
                     context.set_state(S::default_layout().unwrap());
                     let p = layout_parser.parse_with_context(context, input);
                     log!("Layout is {p:?}");
@@ -265,6 +266,9 @@ where
                             continue;
                         }
                     }
+                    // No layout here, nothing is skipped: a layout parse that failed
+                    // half way must not leave the position inside the text it tried.
+                    context.set_position(current_position);
                 }
                 // At this point we can't recognize any new token at the current position.
                 // This can be Ok if partial parse is configured and STOP is expected.
